@@ -142,6 +142,26 @@ theorem c20_extensions_failure_leaves_pending_error (e : EEnv) (n : Nat) (env : 
     (st st' : St) (hm : env.memoOn = false) (h : runE e n env m g st = .fail st') : st'.alt.isSome = true :=
   runE_fail_alt e n env m g st st' hm h
 
+/-- non-vacuity: the premise of `c20_extensions_panic_sites` is met — a `todo()` inside a nested parse inside a Pratt atom panics
+    (site `pTodo`); and the premise of `…failure_leaves_pending_error` — the group holds a token the expression cannot start with -/
+example :
+    let e : EEnv := { base := 100, gap := 1, groups := [(1000, [120, 43, 7])],
+                      exts := [.pratt (.or_ (.oneOf [120, 121]) (.or_ (.call 101) (.ignoreThen (.just [7]) .todo))) [.infix true 1 (.just [43])],
+                               .nested (.call 100) (.select [1000])] }
+    let env : Env := { toks := [120, 43, 1000], kind := .mapped, tspans := layoutSpans 1 3 0, eoi := (10, 10), memoOn := false }
+    runE e 60 env .emit (.call 100) St.init = .panic pTodo := by
+  decide +kernel
+
+example :
+    let e : EEnv := { base := 100, gap := 1, groups := [(1000, [43])],
+                      exts := [.pratt (.or_ (.oneOf [120, 121]) (.call 101)) [.infix true 1 (.just [43])],
+                               .nested (.call 100) (.select [1000])] }
+    let env : Env := { toks := [1000], kind := .mapped, tspans := layoutSpans 1 1 0, eoi := (4, 4), memoOn := false }
+    (match runE e 60 env .emit (.call 100) St.init with
+      | .fail st' => st'.alt.isSome
+      | _ => false) = true := by
+  decide +kernel
+
 #print axioms c20_extensions_panic_sites
 #print axioms c20_extensions_failure_leaves_pending_error
 #print axioms c20_unwraps_never_fire
